@@ -194,6 +194,27 @@ def check(model: Model, run: Run) -> None:
                        "input'; (3) every attribute description / matching rule that reaches a filter constructor passed a match of the attribute "
                        "pattern on that path, and the pattern's language is included in RFC 4512's (regular-language inclusion, Engine E)")
     model.func(ENTRY)
+    # the rejection is a FilterSyntaxError, and a FilterSyntaxError is a ValueError (what `except ValueError` around from_string relies on)
+    fse = model.classes.get("sansldap._filter.FilterSyntaxError")
+    if fse is None:
+        raise AnalysisError("FilterSyntaxError not found")
+    chain = []
+    todo_ = list(fse.bases)
+    seen_ = set()
+    while todo_:
+        b_ = todo_.pop()
+        if b_ in seen_:
+            continue
+        seen_.add(b_)
+        chain.append(b_.split(".")[-1])
+        if b_ in model.classes:
+            todo_.extend(model.classes[b_].bases)
+    ok_ = "ValueError" in chain
+    run.ob("F10-rejections-are-value-errors", ok_, {"bases": sorted(chain)})
+    if not ok_:
+        run.fail(Finding("F10-rejections-are-value-errors", "sansldap._filter.FilterSyntaxError", f"bases={sorted(chain)}",
+                         f"FilterSyntaxError derives from {sorted(chain)}, not from ValueError: callers that guard from_string with `except ValueError` let every rejection through",
+                         model.loc(fse.module, fse.node)))
     # what an accepted filter is rendered as parses back to it: a piece of the text is read by what is in it, not by what follows it
     from .c13 import delimiter_searches_stay_in_their_piece
     delimiter_searches_stay_in_their_piece(model, run, "F9-delimiter-search-stays-in-its-piece")
